@@ -427,8 +427,24 @@ func c17Run(ctx *core.Ctx, idx int, dotu bool, steps int) core.Result {
 				clunk(fid)
 				continue
 			}
-			rep = rw.rpc(&wire.Msg{Type: wire.Tcreate, Fid: fid, Name: name, Perm: 0x01000000 | 0o644, Mode: 0, Ext: "21"})
+			// the new name is opened with the mode of the Tcreate like any created file: link(2), then open(2) with
+			// those flags — O_TRUNC empties the contents the two names share
+			lmode := []uint8{0, 0, 1, 2, 16, 17, 18}[r.Intn(7)]
+			if lmode != 0 {
+				argc += fmt.Sprintf(";mode%d", lmode)
+			}
+			rep = rw.rpc(&wire.Msg{Type: wire.Tcreate, Fid: fid, Name: name, Perm: 0x01000000 | 0o644, Mode: lmode, Ext: "21"})
 			perr = os.Link(filepath.Join(twin, src), filepath.Join(twin, dir, name))
+			if perr == nil {
+				if lf, oerr := os.OpenFile(filepath.Join(twin, dir, name), omodeFlags(lmode), 0); oerr == nil {
+					lf.Close()
+				} else {
+					perr = oerr
+				}
+				if lmode&16 != 0 {
+					touched(src)
+				}
+			}
 			clunk(21)
 		case 5, 6: // write through an opened fid
 			f, ok := pick("file")
